@@ -173,9 +173,30 @@ class Node:
         return self.jwe_base[(alg, enc)]
 
 
-def jose(k: RKey, private: bool):
+def jose(k: RKey, private: bool, rng: Rng | None = None):
+    """the restrictions (use / key_ops) reach the key object inside the JWK, or through the `parameters` argument of an
+    import from a JWK dict / PEM / DER (rng given: the route is drawn per cell)"""
     kk = k if (private or k.kty == "oct") else k.public()
-    return K.to_jose_fast(kk, private or k.kty == "oct", params=dict(k.params))
+    priv = private or k.kty == "oct"
+    route = "inside-jwk"
+    if rng is not None and k.params:
+        route = rng.pick(["inside-jwk", "inside-jwk", "parameters-on-jwk", "parameters-on-pem"] if k.kty != "RSA" else
+                         ["inside-jwk"] * 6 + ["parameters-on-jwk", "parameters-on-pem"])
+    if route == "inside-jwk":
+        return K.to_jose_fast(kk, priv, params=dict(k.params))
+    from joserfc.jwk import JWKRegistry, OctKey
+    bare = RKey(kk.kty, kk.crv, kk.pub, kk.priv if priv else None, kk.k, {})
+    if route == "parameters-on-jwk":
+        cls = S_CLS(k.kty)
+        return cls.import_key(rk.to_jwk(bare, priv), dict(k.params))
+    if k.kty == "oct":
+        return OctKey.import_key(bare.k, dict(k.params))
+    return S_CLS(k.kty).import_key(K.pem(bare, priv), dict(k.params))
+
+
+def S_CLS(kty):
+    from joserfc.jwk import OctKey, RSAKey, ECKey, OKPKey
+    return {"oct": OctKey, "RSA": RSAKey, "EC": ECKey, "OKP": OKPKey}[kty]
 
 
 def run_jws_cell(node: Node, rng: Rng, alg: str, variant: str, path: str):
@@ -187,7 +208,7 @@ def run_jws_cell(node: Node, rng: Rng, alg: str, variant: str, path: str):
         return None
     key, private, expect = v
     try:
-        jkey = jose(key, private)
+        jkey = jose(key, private, rng.sub("route"))
     except Exception:
         return ("import-refused", expect, key, private)
     algs = list(rjws.ALL_ALGS)
@@ -271,7 +292,7 @@ def run_jwe_cell(node: Node, rng: Rng, alg: str, enc: str, variant: str, path: s
         return None
     key, private, expect = v
     try:
-        jkey = jose(key, private)
+        jkey = jose(key, private, rng.sub("route"))
     except Exception:
         return ("import-refused", expect, key, private)
     pt = b'{"sub":"c06"}'
@@ -429,6 +450,8 @@ def _attacker_events(rng, node, res, tr):
             pass
         if alg == "RS256":
             texts.append(("pem-traditional", base.priv.private_bytes(ser.Encoding.PEM, ser.PrivateFormat.TraditionalOpenSSL, ser.NoEncryption())))
+    # the same texts the way they sit in files: after a blank line, indented, after CR LF
+    texts += [(name + "+leading-" + tag, lead + text) for name, text in list(texts) for tag, lead in (("newline", b"\n"), ("spaces", b"  "), ("crlf", b"\r\n\r\n"))]
     for name, text in texts:
         for as_str in (False, True):
             res.case("unsafe-import", name, as_str)
